@@ -185,7 +185,7 @@ def archive_write(ctx):
         # the file written is the one created at <archive_dir>/<generate_filename()>
         if r.status == "holds":
             wa = oblig.events(E, r"Write>::write_all$")
-            cr = oblig.events(E, r"File::create") + oblig.events(E, r"OpenOptions::open$")
+            cr = oblig.events(E, r"File::create") + oblig.events(E, r"OpenOptions::open")
             if not wa or not cr:
                 r.status = "inconclusive"
                 r.notes.append("anchor not found: write_all / File::create")
